@@ -82,7 +82,8 @@ def build(e, idx):
         else:
             line = f'.zerountil {s["n"]}'
     org = s['cur'] if (s['kind'] == 'fill' and s['form'] == 'zuntil') else ORG
-    src = f'.org {org}\n{line}\nfwd:\n.byte $EE\n'
+    # the directive sits in the local scope of a label (named alike in every scenario) and uses forward references
+    src = f'.org {org}\nhere:\n{line}\nfwd:\n.byte $EE\n'
     return {'config': carrier_yaml(**isa_kw), 'files': {'main.asm': src}, 'start': org}, line
 
 
